@@ -105,8 +105,11 @@ class KMLServer(Server):
         tile_format = getattr(tile, 'format', map_request.format)
         resp = Response(tile.as_buffer(),
                         content_type='image/' + tile_format)
-        resp.cache_headers(tile.timestamp, etag_data=(tile.timestamp, tile.size),
-                           max_age=self.max_tile_age)
+        if tile.cacheable:
+            resp.cache_headers(tile.timestamp, etag_data=(tile.timestamp, tile.size),
+                               max_age=self.max_tile_age)
+        else:
+            resp.cache_headers(no_cache=True)
         resp.make_conditional(map_request.http)
         return resp
 
